@@ -181,6 +181,21 @@ def getCellSize (T : Term) (s : Core) : Core × Option (Nat × Nat) × List Ev :
     let r := computeCell T s.win s.swap s.queries
     ({ s with cc := ⟨s.win.cols, s.win.rows, r.1.1, r.1.2⟩ }, sizeOf r.1, .cellRead :: r.2)
 
+/-- A resize to `w'` that arrives *during* a lookup that started at window `w`, at point
+    `p`: 1 = right after the size read (pixels and replies are already the new ones), 2 = right after
+    the ioctl (only the XTWINOPS replies are the new ones), otherwise after the query was written /
+    before the store (everything measured is the old geometry).  The lookup sees this window: -/
+def mixWin (p : Nat) (w w' : Win) : Win :=
+  if p = 1 then { w' with cols := w.cols, rows := w.rows }
+  else if p = 2 then { w' with cols := w.cols, rows := w.rows, xpx := w.xpx, ypx := w.ypx }
+  else w
+
+/-- `get_cell_size()` overtaken by a resize: the size read FIRST is both the cache key tested and
+    the key stored (`_cell_size_cache[:] = terminal_size + cell_size`), whatever it measured -/
+def getCellSizeR (T : Term) (s : Core) (p : Nat) (w' : Win) : Core × Option (Nat × Nat) × List Ev :=
+  let r := getCellSize T { s with win := mixWin p s.win w' }
+  ({ r.1 with win := w' }, r.2.1, r.2.2)
+
 /-! ## the two `cached` query features -/
 
 def colorsBody (T : Term) (q : Bool) : Option RGB × Option RGB :=
@@ -374,6 +389,7 @@ inductive Op
   | setRatio (a : RatioArg)
   | setAcr (v : Option Bool)
   | getCellSize | getCellRatio | getColors (k : CKey) | getNV | isOnKitty
+  | getCellSizeR (p : Nat) (w : Win)   -- a lookup overtaken by a resize at point `p`
   | kittySup | itermSup
   | tsc | tscInval | probe (a : Nat) | probeInval
   | tscRaise      -- a probe call whose body raises if it runs
@@ -398,6 +414,7 @@ def step (T : Term) (s : St) : Op → St × Val × List Ev
   | .setRatio a => setCellRatio T s a
   | .setAcr v => ({ s with acr := v }, .unit, [])
   | .getCellSize => let g := getCellSize T s.toCore; ({ s with toCore := g.1 }, .cell g.2.1, g.2.2)
+  | .getCellSizeR p w => let g := getCellSizeR T s.toCore p w; ({ s with toCore := g.1 }, .cell g.2.1, g.2.2)
   | .getCellRatio => s.lift (getCellRatio T s.toCore)
   | .getColors k => s.lift (getColors T s.toCore k)
   | .getNV => let g := getNV T s.toCore; ({ s with toCore := g.1 }, .nv g.2.1.1 g.2.1.2, g.2.2)
@@ -437,9 +454,14 @@ def effectiveToggle (s : St) : Op → Bool
   | .qOn => !s.queries
   | _ => false
 
+/-- the window a read of this op measures (the mixed one for an overtaken lookup) -/
+def readWin (s : St) : Op → Win
+  | .getCellSizeR p w => mixWin p s.win w
+  | _ => s.win
+
 def ghostStep (T : Term) (s : St) (g : Option Win) (op : Op) : Option Win :=
   if effectiveToggle s op then none
-  else if readsCell (step T s op).2.2 then some s.win else g
+  else if readsCell (step T s op).2.2 then some (readWin s op) else g
 
 def sameCells (l w : Win) : Prop := l.cols = w.cols ∧ l.rows = w.rows
 
@@ -448,7 +470,7 @@ def provisoAt (g : Option Win) (w : Win) : Prop := ∀ l, g = some l → sameCel
 def cellProviso (T : Term) : St → Option Win → List Op → Prop
   | _, _, [] => True
   | s, g, op :: ops =>
-    (readsCell (step T s op).2.2 = true → provisoAt g s.win) ∧
+    (readsCell (step T s op).2.2 = true → provisoAt g (readWin s op)) ∧
     cellProviso T (step T s op).1 (ghostStep T s g op) ops
 
 def ghostRun (T : Term) : St → Option Win → List Op → Option Win
@@ -471,7 +493,7 @@ def tscGhostRun (T : Term) : St → Option Win → List Op → Option Win
   | _, g, [] => g
   | s, g, op :: ops => tscGhostRun T (step T s op).1 (tscGhostStep s g op) ops
 
-def resizesOk (h : List Op) : Prop := ∀ w, Op.resize w ∈ h → w.ok
+def resizesOk (h : List Op) : Prop := ∀ w, (Op.resize w ∈ h ∨ ∃ p, Op.getCellSizeR p w ∈ h) → w.ok
 
 /-! ## concurrent first calls of a `cached` function
 
